@@ -68,11 +68,11 @@ class BaseValidator(object):
         """
         Simply call :py:meth:`~.close()`. In case the ``with`` block already
         ends with an error, this error prevails over a possible
-        :py:exc:`cutplace.errors.CheckError` from the checks at the end.
+        :py:exc:`cutplace.errors.CutplaceError` from the checks at the end.
         """
         try:
             self.close()
-        except errors.CheckError:
+        except errors.CutplaceError:
             if exc_type is None:
                 raise
 
